@@ -391,7 +391,7 @@ def rmAnonS (tbl : List TemplateSig) (va : Option Expr) : Stmt → Except Err (S
   | .while_ m label c b =>
     if containsE false c then .error (c.meta, "Anonymous components cannot be used inside conditions.")
     else
-      let idVar := "anon_var_" ++ label
+      let idVar := "anon_var@" ++ label
       let va' : Expr := .var m idVar .nil
       match rmAnonS tbl (some va') b with
       | .error err => .error err
